@@ -112,6 +112,19 @@ class Poly:
                 parts.append("%s*%s" % (c, ms))
         return " + ".join(parts).replace("+ -", "- ")
 
+    def subst(self, var, repl):
+        """Replace variable `var` by polynomial `repl`."""
+        repl = to_poly(repl)
+        out = Poly()
+        for m, c in self.t.items():
+            term = Poly.const(c)
+            for v, e in m:
+                base = repl if v == var else Poly.var(v)
+                for _ in range(e):
+                    term = term * base
+            out = out + term
+        return out
+
     def eval_np(self, env):
         """Evaluate over numpy integer arrays (env: var -> array).  Coefficients must be integers."""
         total = 0
